@@ -177,6 +177,25 @@ class Ctx:
             out.add((body.id, r, tuple(p)))
         return out
 
+    def promoted_const(self, repr_):
+        """For an operand `const <fn>::promoted[i]`: 'adt::Variant' of the enum constant it refers to (or None)."""
+        import re as _re
+        m = _re.match(r"^(?:const )?(.*)::promoted\[(\d+)\]$", repr_ or "")
+        if not m:
+            return None
+        f = self.fns.get(m.group(1))
+        if not f or "promoted" not in f:
+            return None
+        i = int(m.group(2))
+        if i >= len(f["promoted"]):
+            return None
+        vals = []
+        for blk in f["promoted"][i]["blocks"]:
+            for st in blk["stmts"]:
+                if st["k"] == "assign" and st["rv"]["k"] == "aggregate" and st["rv"].get("akind") == "adt":
+                    vals.append("%s::%s" % (st["rv"]["adt"], st["rv"]["variant"]))
+        return vals[0] if len(vals) == 1 else (tuple(vals) if vals else None)
+
     def adt(self, path):
         if path not in self.adts:
             raise AnchorMissing("ADT %s not found" % path)
